@@ -16,15 +16,15 @@ class C12(Prop):
             "non-trivial if it contains at least one deletion or one kept observation of an anchored metric; "
             "distinct = distinct (config, op list, outputs)")
     design_ref = "DESIGN.md 4 C12"
-    technique = "Coq proof: refinement of the map+generation model to a per-metric specification machine, for all histories/masks/timeouts; differential correspondence against Recency+Registry under a mock clock"
+    technique = "Coq proof: refinement of the map+generation model to a per-metric specification machine, for all histories/masks/timeouts; differential correspondence against Recency+Registry under a mock clock, and against the Prometheus exporter under a mock clock and (jitter-free regimes) the real clock"
     level_text = ("Theorems (Coq, all histories, masks, timeouts, any number of keys/kinds): the model of Recency::should_store over a "
                   "generational registry equals a per-metric specification machine (C12_model_meets_spec), whose history-level clauses are proved: "
                   "updated-since-last-observation kept, idle <= timeout kept (boundary), idle > timeout deleted, uncovered kinds never deleted, "
                   "fresh after re-registration, independence of other kinds/keys. The model is tied to /repo by running the real Recency/Registry "
                   "and the model on the same generated histories each run.")
     level_note = ("Trusted: Coq kernel; hand-written model (tied by differential runs, not by translation); quanta mock clock; HashMap/Registry "
-                  "modelled as association lists; generation counter assumed not to wrap. The Prometheus exporter's use of this logic is covered under C07.")
-    assumptions = ["quanta mock clock stands for the real clock", "generation counter does not wrap (usize)"]
+                  "modelled as association lists; generation counter assumed not to wrap. The Prometheus exporter's use of this logic (expired series leave the output, an expired histogram loses its aggregated distribution, re-registration restarts from zero) is observed through whole renders under a mock clock with several key spellings (sanitised, non-ASCII, labelled, global labels) and through build_recorder() on the real clock.")
+    assumptions = ["quanta mock clock stands for the real clock in the differential histories (the real clock is driven only through two jitter-free regimes of the Prometheus-level engine: every gap either follows an update or is >= 3 timeouts; or the timeout is 120 s)", "generation counter does not wrap (usize)"]
     trusted_extra = ["hashbrown/HashMap inside Recency and Registry (exercised, modelled as association lists)"]
 
     def gen(self, rng, n):
@@ -179,18 +179,46 @@ class C12(Prop):
             # how the driver spells keys (plain / sanitised / non-ASCII / labelled / global label / mixed):
             # keys are opaque ids in the model, so the spelling must not change any observation
             cases.append(dict(mask=mask, timeout=T, naming=rng.weighted([(2, 0), (2, 1), (1, 2), (2, 3), (1, 4), (3, 5)]), ops=ops))
+        fails = self._prom_eval(ctx, cases, "prom", real=False)
+        if fails:
+            return fails
+        # ---- the same histories' shape on the REAL clock (build_recorder(), real sleeps): a mock
+        # clock cannot tell which of quanta's time sources the code reads.  Two regimes whose verdicts
+        # do not depend on scheduling jitter: S = timeout 150 ms and a 450 ms sleep after EVERY render
+        # (so an observation either follows an update - kept whatever the time - or finds the metric
+        # unchanged since an observation at least 3 timeouts ago - gone); L = timeout 120 s, no sleep
+        # (everything kept).  The model is run with ticks = milliseconds.
+        rcases = []
+        for i in range(8 if ctx["tier"] == "quick" else 32):
+            nkeys = rng.range(1, 2)
+            naming = rng.weighted([(2, 0), (2, 1), (1, 2), (2, 3), (1, 4), (3, 5)])
+            mask = rng.weighted([(6, 7), (2, rng.below(8))])
+            ops = []
+            if i % 4 == 3:
+                for _ in range(rng.range(3, 12)):
+                    ops.append(["U", rng.pick("cgh"), rng.below(nkeys), rng.below(50)] if rng.chance(1, 2) else ["R"])
+                rcases.append(dict(mask=mask, timeout=120000, naming=naming, ops=ops + [["R"]]))
+            else:
+                for _ in range(rng.range(2, 4)):
+                    for _ in range(rng.range(0, 3)):
+                        ops.append(["U", rng.pick("cgh"), rng.below(nkeys), rng.below(50)])
+                    ops += [["R"], ["A", 450]]
+                rcases.append(dict(mask=mask, timeout=150, naming=naming, ops=ops + [["R"]]))
+        return self._prom_eval(ctx, rcases, "promreal", real=True)
+
+    def _prom_eval(self, ctx, cases, tag, real):
+        from . import core
         binpath = core.harness_build("hprom", "c12p")
 
         def line(c):
             toks = []
             for o in c["ops"]:
                 toks.append("U%s%d:%d" % (o[1], o[2], o[3]) if o[0] == "U" else ("A%d" % o[1] if o[0] == "A" else "R"))
-            return "%d %s %d | %s" % (c["mask"], "-" if c["timeout"] is None else c["timeout"], c.get("naming", 0), " ".join(toks))
+            return "%s%d %s %d | %s" % ("REAL " if real else "", c["mask"], "-" if c["timeout"] is None else c["timeout"], c.get("naming", 0), " ".join(toks))
         rc, outs, err = core.run_impl(binpath, [line(c) for c in cases], timeout=900)
         if rc != 0 or len(outs) != len(cases):
             raise core.MachineryBroken("c12p driver failed: rc=%s %s" % (rc, err[-1000:]))
         triples, shown = [], []
-        deletions = 0
         for i, (c, o) in enumerate(zip(cases, outs)):
             targets = sorted({(op[1], op[2]) for op in c["ops"] if op[0] == "U"}, key=lambda t: ("cgh".index(t[0]), t[1]))
             toks = o.split(" ")
@@ -216,19 +244,21 @@ class C12(Prop):
             cfg = "{| mask_c := %s; mask_g := %s; mask_h := %s; timeout := %s; by_kind := true |}" % (
                 cq_bool(m & 1), cq_bool(m & 2), cq_bool(m & 4), cq_opt(None if c["timeout"] is None else cq_N(c["timeout"])))
             triples.append((i, "(%s, %s)" % (cfg, cq_list(hist)), cq_list(pouts)))
-            shown.append(dict(case=c, render_tokens=o))
-        res = core.run_model("C12", triples, exec_mod="ExecProm", shard=200, tag="prom")
+            shown.append(dict(case=c, render_tokens=o, clock="real (build_recorder, sleeps in ms)" if real else "mock"))
+        res = core.run_model("C12", triples, exec_mod="ExecProm", shard=200, tag=tag)
         bad = [i for i in range(len(cases)) if not res[i][1]]
         dis = [i for i in range(len(cases)) if not res[i][0]]
-        ctx["coverage"]["prometheus_level_histories"] = len(cases)
-        ctx["coverage"]["prometheus_level_renders"] = sum(1 for c in cases for o in c["ops"] if o[0] == "R")
-        ctx["coverage"]["prometheus_level_sample"] = shown[0]
-        ctx["coverage"]["prometheus_level_key_spelling"] = {str(m): sum(1 for c in cases if c["naming"] == m) for m in range(6)}
+        pre = "prometheus_level_real_clock_" if real else "prometheus_level_"
+        ctx["coverage"][pre + "histories"] = len(cases)
+        ctx["coverage"][pre + "renders"] = sum(1 for c in cases for o in c["ops"] if o[0] == "R")
+        ctx["coverage"][pre + "sample"] = shown[0]
+        ctx["coverage"][pre + "key_spelling"] = {str(m): sum(1 for c in cases if c["naming"] == m) for m in range(6)}
+        kind = "promreal" if real else "prom"
         if bad:
-            return [("prom-spec", "through the Prometheus exporter (idle_timeout + mock clock) a series is present/absent or has a value other than the per-metric specification says",
+            return [(kind + "-spec", "through the Prometheus exporter (idle_timeout, %s clock) a series is present/absent or has a value other than the per-metric specification says" % ("REAL" if real else "mock"),
                      dict(prom_case=shown[bad[0]], failing=len(bad)))]
         if dis:
-            return [("prom-corr", "Prometheus-level observations disagree with coq/C12 model (ExecProm.run_case)", dict(prom_case=shown[dis[0]], no_failing_input=True,
+            return [(kind + "-corr", "Prometheus-level observations (%s clock) disagree with coq/C12 model (ExecProm.run_case)" % ("real" if real else "mock"), dict(prom_case=shown[dis[0]], no_failing_input=True,
                      broken="correspondence C12/ExecProm.v vs harness c12p"))]
         return []
 
